@@ -183,6 +183,16 @@ def check(repo: Repo, run: Run) -> None:
             # (recognised: the accumulation was found, its offset is a number and the header words were located)
             return isinstance(K, int) and len(words) >= 1
         recognised = judge(lambda *a_, **k_: pending.append((a_, k_)))
+        piped = [x for t_ in [text] + [h for h in hdr_terms if h is not None] for x in sym.walk(t_)
+                 if x.op == "call" and ((x.a[0].op == "global" and x.a[0].a[0].startswith(("itertools.", "functools.", "operator.")))
+                                        or x.a[0] in (T("builtin", ("map",)), T("builtin", ("filter",)), T("builtin", ("zip",))))]
+        if piped and not recognised and any(not a_[4] for a_, _ in pending):
+            # the pieces go through a pipeline of library iterators (accumulate / groupby / reduce ...): the accumulation form
+            # these rules read is not there to be found
+            run.floor_failures.append(f"C08/R1: {scope} reassembles the text through {sym.pretty(piped[0].a[0])}(...): the "
+                                      f"header/offset agreement is not decided")
+            gated.add(scope)
+            continue
         if in_object and not recognised and any(not a_[4] for a_, _ in pending):
             run.floor_failures.append(f"C08/R1: {scope} keeps the reassembly state in a helper object "
                                       f"({str(in_object[0].a[0])}): the header/offset agreement is not decided")
@@ -227,7 +237,8 @@ def check(repo: Repo, run: Run) -> None:
                 if len(bv_) == 1:
                     selections.append((bv_.pop(), body_))
     for elemvar, c in selections:
-        if True:
+        c, pol_ = render.norm_bool(c)           # `not (name != 'X')` is `name == 'X'`
+        if pol_:
             tc = T("attr", (param("self"), "trace_codes"))
             eid = T("attr", (elemvar, "eventid"))
             names = [T("call", (T("attr", (tc, "get")), (eid,), ())), T("call", (T("attr", (tc, "get")), (eid, const("")), ())),
@@ -255,6 +266,21 @@ def check(repo: Repo, run: Run) -> None:
         v = r_.value
         for pc_, leaf in normal.guarded_leaves(v):
             base = leaf.a[0] if leaf.op == "sub" and leaf.a[1] == const(0) else None
+
+            def _empty_vnode(x):
+                return x.op == "call" and x.a[0].op == "global" and x.a[0].a[0].endswith(".Vnode") and (
+                    x.a[1] == (T("list", ((),)), const(0), const("")) or
+                    (not x.a[1] and dict(x.a[2]) == {"ktraces": T("list", ((),)), "vnode_id": const(0), "path": const("")}))
+            if leaf.op == "call" and leaf.a[0] == T("builtin", ("next",)) and len(leaf.a[1]) == 2 and not leaf.a[2] \
+                    and _empty_vnode(leaf.a[1][1]):
+                # next(iter(parse_vnodes(events)), Vnode([], 0, '')): the first lookup, or the empty Vnode
+                src_ = leaf.a[1][0]
+                while src_.op == "call" and src_.a[0] == T("builtin", ("iter",)) and len(src_.a[1]) == 1:
+                    src_ = src_.a[1][0]
+                if src_ == opaque_all or sym.canon(src_) == sym.canon(all_lookups):
+                    firsts.append(r_)
+                    fallbacks.append(r_)
+                    continue
             if base is not None and (base == opaque_all or sym.canon(base) == sym.canon(all_lookups)):
                 firsts.append(r_)
             elif leaf.op == "call" and leaf.a[0].op == "global" and leaf.a[0].a[0].endswith(".Vnode") and (
